@@ -23,7 +23,8 @@ from common import Ctx, driver_json, fmt
 
 PROPERTY = "C10"
 LEAN_MODULES = ["Proofs.C10", "Proofs.C10.Accrual", "Proofs.C10.Debt", "Proofs.C10.Split", "Proofs.C10.Robust",
-                "Proofs.C10.Bars", "Proofs.C10.Pinned", "Proofs.C10.Overdraft", "Proofs.C10.Interleaved", "Proofs.C10.BarsRobust"]
+                "Proofs.C10.Bars", "Proofs.C10.Pinned", "Proofs.C10.Overdraft", "Proofs.C10.Interleaved", "Proofs.C10.BarsRobust",
+                "Proofs.C10.InterleavedDust"]
 DRIVERS = ["driver_aave"]
 RULE = ("index paths: 1-120 bars, 27-digit indices growing by 0-3 % per bar (or exactly representable ones), 2-4 tokens; operations: supply / "
         "withdraw / borrow / repay(cash|collateral) with amounts that are fractions of the balance, the exact balance, None, and split pairs "
